@@ -19,7 +19,7 @@ class LoopSpec:
     inv: Optional[Callable] = None        # inv(lc) -> z3 Bool / VBool ; lc: LoopCtx
     decreases: Optional[Callable] = None  # decreases(lc) -> Int term (while loops)
     unroll: Optional[int] = None          # exact unrolling bound (+ unwinding assertion)
-    havoc: tuple = ()                     # extra heap refs / names to havoc
+    havoc: tuple = ()                     # ghost keys (fresh constant of the same sort) or callables f(ex, st) havocked with the loop state
     label: str = ""
 
 
@@ -53,6 +53,8 @@ class FnContract:
     yields: Optional[Callable] = None      # yields(ctx) -> Bool over ctx.yielded
     exc_any_ok: bool = False               # `raises` lists are not exhaustive (used for assumed externals)
     may_raise_any: bool = False            # assumed external: may raise any Exception (EXC-ANY) besides `raises`
+    frame: Optional[Callable] = None       # call-site frame effect on ghost / abstract state: frame(ex, st, ctx), run after the
+                                           # `modifies` havoc and before any outcome is produced (normal AND exceptional)
 
 
 class Registry:
